@@ -138,6 +138,9 @@ class RF:
     def __init__(self, n: Poly, d: Poly = None):
         self.n = n
         self.d = d if d is not None else Poly.const(1)
+        if not self.n.canon().t:
+            # 0 / d = 0 (d is never the zero polynomial)
+            self.n, self.d = Poly.const(0), Poly.const(1)
         if self.d.is_const() and self.d.t and self.d.const_value() != 1:
             c = self.d.const_value()
             self.n = Poly({m: v / c for m, v in self.n.t.items()})
@@ -290,6 +293,11 @@ def fn_atom(name: str, *args) -> RF:
         if a.leading_sign() < 0:
             a = -a
         return RF(Poly.atom(("abs", repr(a))))
+    if name == "round" and len(args) == 2 and args[0].d.is_const() and len(args[0].n.t) == 1:
+        # round(round(x, n), n) = round(x, n)
+        (m, c), = args[0].n.t.items()
+        if len(m) == 1 and isinstance(m[0][0], tuple) and m[0][0][0] == "round" and m[0][1] == 1 and c == 1 and len(m[0][0]) == 3 and m[0][0][2] == repr(args[1]):
+            return args[0]
     if name in ("min", "max"):
         if all(a.is_const() for a in args):
             f = min if name == "min" else max
